@@ -34,9 +34,9 @@ NOTES = "All checks: ./check <ID> --tier quick|thorough; exit 0 held / 1 VIOLATI
 LEVEL_NOTE = "Trusted base: the reference model in harness/ref (calibrated at the start of every run on the 862 compliance cases, CPython slicing and CFG-vs-Pratt agreement; a calibration failure is a HARNESS-ERROR, never a violation), the Go standard library (encoding/json, strconv, reflect, utf8), rapid v1.3.0. Exploration: no claim for inputs not generated."
 
 PROPS["C01"] = {
-    "quick": [rapid("TestC01", 15000, shards=4), plain("TestC01TokenSizes")],
-    "thorough": [rapid("TestC01", 600000, shards=16), plain("TestC01TokenSizes")],
-    "rule": "rapid: G-doc document x document-aware core-fragment expression (identifiers incl. quoted/empty/non-ASCII, sub-expressions, indices, literals, raw strings, @, parentheses, pipes, multi-select lists/hashes; three whitespace renderings); oracle: library one-shot Search and Compile+Search vs reference evaluator. Non-trivial: result non-null, or null for a named reason (missing key, out-of-range index, field on non-object, index on non-array, multi-select on null). Distinct by hash of (expression text, document text).",
+    "quick": [plain("TestDeepDocs", shards=4), rapid("TestC01", 15000, shards=4), plain("TestC01TokenSizes")],
+    "thorough": [plain("TestDeepDocs", shards=4), rapid("TestC01", 600000, shards=16), plain("TestC01TokenSizes")],
+    "rule": "rapid: G-doc document x document-aware core-fragment expression (identifiers incl. quoted/empty/non-ASCII, sub-expressions, indices, literals, raw strings, @, parentheses, pipes, multi-select lists/hashes; three whitespace renderings); oracle: library one-shot Search and Compile+Search vs reference evaluator. Non-trivial: result non-null, or null for a named reason (missing key, out-of-range index, field on non-object, index on non-array, multi-select on null). Distinct by hash of (expression text, document text). Deep documents (TestDeepDocs): 32 expressions whose result is or contains part of the document x documents nested 0..72 and around 96..2049 deep x 3 container mixes, against the reference model.",
     "assumptions": COMMON_ASSUMPTIONS,
     "min_nontrivial": 1000,
     "technique": "differential property-based testing against an independent reference evaluator (rapid, document-aware expression generator)",
@@ -95,9 +95,9 @@ prop("C08",
      min_nontrivial=10000)
 
 prop("C09",
-     quick=[plain("TestC09Universe"), rapid("TestC09ToNumber", 40000), rapid("TestC09Random", 40000), rapid("TestC09Large", 12000, shards=2), plain("TestSizeSweep", shards=4), plain("TestC09StringSizes"), plain("TestNestedCompositions"), plain("TestEqualityUniverse", shards=2)],
-     thorough=[plain("TestC09Universe"), rapid("TestC09ToNumber", 800000, shards=4), rapid("TestC09Random", 400000, shards=8), rapid("TestC09Large", 160000, shards=8), plain("TestSizeSweep", shards=4), plain("TestC09StringSizes"), plain("TestNestedCompositions"), plain("TestEqualityUniverse", shards=2)],
-     rule="(a) each of the 26 functions on every well-typed tuple over a typed universe (numbers incl. -0/1e15, strings incl. multi-byte/astral/number-like/non-finite spellings, number/string/object/mixed arrays with duplicates and ties, objects with colliding keys, 11 expression references); (b) to_number on strings over number-ish characters: finite-or-null, exact for JSON numbers, null for clearly non-numeric; (c) random calls and expressions with calls on G-doc documents and on large arrays (<= 120 objects with many key ties, multi-byte strings); (d) 34 array-function expressions (sort_by/max_by/min_by with number, string, negated and computed keys, sort, max, min, sum, avg, reverse, join, map, nested sorts) on arrays of 0..300 elements with 1..6 distinct keys (heavy ties). Oracle: reference function library (stable insertion sort, first extremal element, code-point string handling, later-wins merge, to_string as 'any JSON text decoding to the argument'), bag-aware for keys/values. Non-trivial: the reference evaluation succeeded and at least one function call was evaluated; per-function success counts are in classes (universe-success.<name>; zero for any function is a harness error).",
+     quick=[plain("TestSharedSubvalues"), plain("TestC09Universe"), rapid("TestC09ToNumber", 40000), rapid("TestC09Random", 40000), rapid("TestC09Large", 12000, shards=2), plain("TestSizeSweep", shards=4), plain("TestC09StringSizes"), plain("TestNestedCompositions"), plain("TestEqualityUniverse", shards=2)],
+     thorough=[plain("TestSharedSubvalues"), plain("TestC09Universe"), rapid("TestC09ToNumber", 800000, shards=4), rapid("TestC09Random", 400000, shards=8), rapid("TestC09Large", 160000, shards=8), plain("TestSizeSweep", shards=4), plain("TestC09StringSizes"), plain("TestNestedCompositions"), plain("TestEqualityUniverse", shards=2)],
+     rule="(a) each of the 26 functions on every well-typed tuple over a typed universe (numbers incl. -0/1e15, strings incl. multi-byte/astral/number-like/non-finite spellings, number/string/object/mixed arrays with duplicates and ties, objects with colliding keys, 11 expression references); (b) to_number on strings over number-ish characters: finite-or-null, exact for JSON numbers, null for clearly non-numeric; (c) random calls and expressions with calls on G-doc documents and on large arrays (<= 120 objects with many key ties, multi-byte strings); (d) 34 array-function expressions (sort_by/max_by/min_by with number, string, negated and computed keys, sort, max, min, sum, avg, reverse, join, map, nested sorts) on arrays of 0..300 elements with 1..6 distinct keys (heavy ties). Oracle: reference function library (stable insertion sort, first extremal element, code-point string handling, later-wins merge, to_string as 'any JSON text decoding to the argument'), bag-aware for keys/values. Non-trivial: the reference evaluation succeeded and at least one function call was evaluated; per-function success counts are in classes (universe-success.<name>; zero for any function is a harness error). Shared sub-values (TestSharedSubvalues): 35 expressions over values that hold one object or array several times (to_string([@, @]), merge({x: a}, {y: a}), ...) x 3 documents x 3 contexts.",
      technique="differential vs an independent reference function library: exhaustive typed universe per function + random nested calls",
      level_text="Exact equality with the specification's value, hence ordering, permutation and stability of sort_by, first-extremal of max_by/min_by etc. are checked in both directions at once.",
      min_nontrivial=3000)
@@ -111,39 +111,39 @@ prop("C10",
      min_nontrivial=10000)
 
 prop("C11",
-     quick=[plain("TestC11Exhaustive"), plain("TestC11LargeKeys"), plain("TestC11Typed"), plain("TestC11Positions"), plain("TestNestedCompositions"), plain("TestC11Triples", shards=4), rapid("TestC11Random", 40000), plain("TestSizeSweep", shards=4)],
-     thorough=[plain("TestC11Exhaustive", env={"VERIF_C11_PAIRS": 1}, shards=8), plain("TestC11LargeKeys"), plain("TestC11Typed"), plain("TestC11Positions"), plain("TestNestedCompositions"), plain("TestC11Triples", shards=4), rapid("TestC11Random", 400000, shards=16), plain("TestSizeSweep", shards=4)],
-     rule="10 erroring seeds (invalid type, arity, unknown function, zero step, inconsistent/bad key, variadic type, expref as value, nested) x 40 strict context constructors (every operator side, projection kind incl. left operands and right-hand sides, filter condition, function argument positions, expression-reference bodies, multi-select members, pipes) exhaustively (thorough: all ordered pairs), every binary operator with an operand of each of the 36 universe values on the other side of the seed (4 carriers; the reference model decides whether the seed must be evaluated), by-expression functions on arrays of 22/41/61 elements with one erroring key at every position (errors raised inside sort comparators), 11 non-strict controls (short-circuit, empty/non-matching projections, multi-select on null), and random stacks of depth 1..6 incl. document-dependent seeds. Oracle: metamorphic (Search(E) errors => Search(C[E]) errors and returns nil) for stacks that guarantee evaluation, and differential vs the reference evaluator for all. Non-trivial: a strict stack whose seed errors.",
+     quick=[plain("TestC09StringSizes"), plain("TestC11Exhaustive"), plain("TestC11LargeKeys"), plain("TestC11Typed"), plain("TestC11Positions"), plain("TestNestedCompositions"), plain("TestC11Triples", shards=4), rapid("TestC11Random", 40000), plain("TestSizeSweep", shards=4)],
+     thorough=[plain("TestC09StringSizes"), plain("TestC11Exhaustive", env={"VERIF_C11_PAIRS": 1}, shards=8), plain("TestC11LargeKeys"), plain("TestC11Typed"), plain("TestC11Positions"), plain("TestNestedCompositions"), plain("TestC11Triples", shards=4), rapid("TestC11Random", 400000, shards=16), plain("TestSizeSweep", shards=4)],
+     rule="10 erroring seeds (invalid type, arity, unknown function, zero step, inconsistent/bad key, variadic type, expref as value, nested) x 40 strict context constructors (every operator side, projection kind incl. left operands and right-hand sides, filter condition, function argument positions, expression-reference bodies, multi-select members, pipes) exhaustively (thorough: all ordered pairs), every binary operator with an operand of each of the 36 universe values on the other side of the seed (4 carriers; the reference model decides whether the seed must be evaluated), by-expression functions on arrays of 22/41/61 elements with one erroring key at every position (errors raised inside sort comparators), 11 non-strict controls (short-circuit, empty/non-matching projections, multi-select on null), and random stacks of depth 1..6 incl. document-dependent seeds. Oracle: metamorphic (Search(E) errors => Search(C[E]) errors and returns nil) for stacks that guarantee evaluation, and differential vs the reference evaluator for all. Non-trivial: a strict stack whose seed errors. String sizes (TestC09StringSizes under C11): failing calls whose offending argument is a string of every byte length 0..72 and around 128..65536.",
      technique="metamorphic error-preservation under strict evaluation contexts + differential vs reference evaluator; exhaustive singles/pairs, random stacks",
      level_text="All single contexts (thorough: pairs) are enumerated; deeper nestings randomly.",
      min_nontrivial=300)
 
 
 prop("C05",
-     quick=[rapid("TestC05", 50000, shards=4, mem_gb=6), plain("TestC05Scaling", shards=4, mem_gb=6), plain("TestC05NonFinite", mem_gb=6), plain("TestC05Operands", mem_gb=6)],
-     thorough=[rapid("TestC05", 400000, shards=16, mem_gb=6), plain("TestC05Scaling", shards=4, mem_gb=6), plain("TestC05NonFinite", mem_gb=6), plain("TestC05Operands", mem_gb=6),
+     quick=[plain("TestDepthSweep", mem_gb=6), plain("TestC09StringSizes", mem_gb=6), rapid("TestC05", 50000, shards=4, mem_gb=6), plain("TestC05Scaling", shards=4, mem_gb=6), plain("TestC05NonFinite", mem_gb=6), plain("TestC05Operands", mem_gb=6)],
+     thorough=[plain("TestDepthSweep", mem_gb=6), plain("TestC09StringSizes", mem_gb=6), rapid("TestC05", 400000, shards=16, mem_gb=6), plain("TestC05Scaling", shards=4, mem_gb=6), plain("TestC05NonFinite", mem_gb=6), plain("TestC05Operands", mem_gb=6),
                fuzz("FuzzC05", "120s", mem_gb=16, wall_timeout=900),
                fuzz("FuzzC05", "120s", env={"VERIF_FUZZ_EMPTY_CORPUS": 1}, mem_gb=16, wall_timeout=900)],
-     rule="rapid: expressions as byte strings (random bytes incl. invalid UTF-8 and NUL; token soup with hostile lexemes such as U+0080 after an identifier, extreme integers, unterminated delimiters; grammar sentences and their mutants; truncations/splices; deep nestings of every bracket/prefix kind up to 64 KiB; documents nested up to 3000 levels matched by equally deep expressions; extreme integers in every index/slice slot; all-function document-aware expressions with 30% ill-typed choices; large flat documents) x G-doc documents. Oracle inside the target: recover() around Compile, MustCompile, Search (both forms) and SyntaxError rendering; 20 s watchdog per case; allocation envelope 2048 x (|expr|+|doc|+|result|) + 32 x |expr| x (|doc|+|result|) + 16 MiB for inputs > 4 KiB; and the semantic oracle: lexable texts must be accepted iff grammatical (reference Pratt parser = CFG) and grammatical ones must evaluate like the reference model. Plus a dose-response check: 60 input families at size k and 8k, thread CPU time may grow at most 24x (judged only above 1 s of CPU). Thorough adds native coverage-guided fuzzing (go test -fuzz) of the same target, once seeded with the repository's fuzz corpus + hostile constants and once with an empty corpus. Non-trivial: the input lexes completely or belongs to a hostile class; classes: lex-error, parse-error, evaluated-ok, evaluated-error, deep-nesting, extreme-integer, large-doc, out-of-domain (invalid UTF-8 / integers beyond int64).",
+     rule="rapid: expressions as byte strings (random bytes incl. invalid UTF-8 and NUL; token soup with hostile lexemes such as U+0080 after an identifier, extreme integers, unterminated delimiters; grammar sentences and their mutants; truncations/splices; deep nestings of every bracket/prefix kind up to 64 KiB; documents nested up to 3000 levels matched by equally deep expressions; extreme integers in every index/slice slot; all-function document-aware expressions with 30% ill-typed choices; large flat documents) x G-doc documents. Oracle inside the target: recover() around Compile, MustCompile, Search (both forms) and SyntaxError rendering; 20 s watchdog per case; allocation envelope 2048 x (|expr|+|doc|+|result|) + 32 x |expr| x (|doc|+|result|) + 16 MiB for inputs > 4 KiB; and the semantic oracle: lexable texts must be accepted iff grammatical (reference Pratt parser = CFG) and grammatical ones must evaluate like the reference model. Plus a dose-response check: 60 input families at size k and 8k, thread CPU time may grow at most 24x (judged only above 1 s of CPU). Thorough adds native coverage-guided fuzzing (go test -fuzz) of the same target, once seeded with the repository's fuzz corpus + hostile constants and once with an empty corpus. Non-trivial: the input lexes completely or belongs to a hostile class; classes: lex-error, parse-error, evaluated-ok, evaluated-error, deep-nesting, extreme-integer, large-doc, out-of-domain (invalid UTF-8 / integers beyond int64). Depth sweep (TestDepthSweep): 18 nesting constructs x every depth 1..72 and around 96..10000, complete, cut off after the last opener, unclosed and over-closed. String sizes (TestC09StringSizes under C05): succeeding and failing calls on strings of every byte length 0..72 and around 128..65536 with a multi-byte character at the start, middle, end or next-to-last position, as document value and written in the expression.",
      technique="property-based robustness testing with a semantic oracle inside the target (rapid) + native coverage-guided fuzzing in the thorough tier",
      level_text="Crash/termination/resource oracle over generated and mutated byte strings, with the differential oracle inside the target so that it is not crash-only. Termination is checked as 'returns within a 20 s watchdog on everything generated'; liveness cannot be established by testing.",
      min_nontrivial=5000,
      assumptions=["native fuzzing cannot be pinned to VERIF_SEED; its reproducible unit is the saved input (replay file)", "the watchdog (20 s, >= 10^4 x the normal cost), the allocation envelope and the CPU-time growth rule (24x for 8x size, above 1 s of thread CPU) are generous bounds, not tight ones"])
 
 prop("C06",
-     quick=[rapid("TestC06", 15000, shards=4), plain("TestSizeSweep", shards=4), plain("TestProducerConsumerGrid", shards=4), plain("TestNestedCompositions"),
+     quick=[plain("TestDeepDocs", shards=4), plain("TestSharedSubvalues"), rapid("TestC06", 15000, shards=4), plain("TestSizeSweep", shards=4), plain("TestProducerConsumerGrid", shards=4), plain("TestNestedCompositions"),
             rapid("TestC06", 3000, shards=2, race=True, gomaxprocs=4), plain("TestNestedCompositions", race=True, gomaxprocs=4)],
-     thorough=[rapid("TestC06", 400000, shards=16), rapid("TestC12", 6000, shards=4, race=True, env={"VERIF_C12_MODE": "reader"}), plain("TestSizeSweep", shards=4), plain("TestProducerConsumerGrid", shards=4), plain("TestNestedCompositions"),
+     thorough=[plain("TestDeepDocs", shards=4), plain("TestSharedSubvalues"), rapid("TestC06", 400000, shards=16), rapid("TestC12", 6000, shards=4, race=True, env={"VERIF_C12_MODE": "reader"}), plain("TestSizeSweep", shards=4), plain("TestProducerConsumerGrid", shards=4), plain("TestNestedCompositions"),
                rapid("TestC06", 40000, shards=4, race=True, gomaxprocs=4), plain("TestProducerConsumerGrid", shards=4, race=True, gomaxprocs=4), plain("TestNestedCompositions", race=True, gomaxprocs=4)],
-     rule="rapid: (a) 35 templates applying every reordering/combining function (sort_by, sort, reverse, merge, to_array, map, max_by, flatten, slices, pipes) to documents whose arrays are visibly unsorted, optionally wrapped in a strict context, with a poisoned last key so that by-expression functions fail after partial work; (b) document-aware all-function expressions on those documents; (c) on G-doc documents. The document is rebuilt so that every array has hidden spare capacity filled with sentinels. Oracle: deep snapshot before == after (array order included) and sentinel tails intact, after the one-shot Search and after Compile+Search, on success and on error paths; thorough additionally runs searches under the race detector while another goroutine deep-reads the same document. Non-trivial: the reference evaluation shows that a function call or projection was evaluated (classes list call.<function>, path.success / path.error).",
+     rule="rapid: (a) 35 templates applying every reordering/combining function (sort_by, sort, reverse, merge, to_array, map, max_by, flatten, slices, pipes) to documents whose arrays are visibly unsorted, optionally wrapped in a strict context, with a poisoned last key so that by-expression functions fail after partial work; (b) document-aware all-function expressions on those documents; (c) on G-doc documents. The document is rebuilt so that every array has hidden spare capacity filled with sentinels. Oracle: deep snapshot before == after (array order included) and sentinel tails intact, after the one-shot Search and after Compile+Search, on success and on error paths; thorough additionally runs searches under the race detector while another goroutine deep-reads the same document. Non-trivial: the reference evaluation shows that a function call or projection was evaluated (classes list call.<function>, path.success / path.error). Deep documents (TestDeepDocs: results aliasing documents nested up to 2049 deep) and values holding one object several times (TestSharedSubvalues), both under the no-mutation predicate.",
      technique="invariant over generated (expression, document) pairs: deep snapshot equality + spare-capacity sentinels; race detector with a concurrent reader (thorough)",
      level_text="A write that restores the old value is invisible to a snapshot; the thorough tier's concurrent reader under -race covers it.",
      min_nontrivial=3000)
 
 prop("C12",
-     quick=[rapid("TestC12", 1000, shards=4, race=True, gomaxprocs=4), plain("TestC12Representation", shards=4, race=True, gomaxprocs=4), plain("TestNestedCompositions", race=True, gomaxprocs=4)],
-     thorough=[rapid("TestC12", 12000, shards=8, race=True, gomaxprocs=4), rapid("TestC12", 6000, shards=4, race=True, gomaxprocs=2), rapid("TestC12", 6000, shards=4, race=True, gomaxprocs=16), plain("TestC12Representation", shards=4, race=True, gomaxprocs=4), plain("TestNestedCompositions", race=True, gomaxprocs=4)],
-     rule="rapid cases (expression, document) from three sources (expressions whose literals are shared by the compiled AST and flow into sort_by/reverse/merge; the C06 templates on unsorted documents; document-aware all-function expressions) plus expressions over a Go struct document (reflection paths; mode 'struct': results compared with the sequential call) x 5 modes (one compiled expression + one shared document; + private documents that differ per goroutine (arrays doubled / truncated; expected result per variant from the reference model); one-shot Search from all goroutines; mixed with concurrent Compile of other expressions; with a concurrent deep reader of the document): 8 goroutines x 20 iterations released by a barrier, binary built with -race (GORACE=halt_on_error: a report fails the run and is attributed to the running case through a breadcrumb file). Oracle: no race report; every goroutine's result equals the sequential result (bag-aware) which equals the reference model; the shared document is unchanged. Non-trivial: at least two goroutines overlapped and the expression reaches a function or projection.",
+     quick=[plain("TestC12NonFiniteDocs", race=True, gomaxprocs=4), rapid("TestC12", 1000, shards=4, race=True, gomaxprocs=4), plain("TestC12Representation", shards=4, race=True, gomaxprocs=4), plain("TestNestedCompositions", race=True, gomaxprocs=4)],
+     thorough=[plain("TestC12NonFiniteDocs", race=True, gomaxprocs=4), rapid("TestC12", 12000, shards=8, race=True, gomaxprocs=4), rapid("TestC12", 6000, shards=4, race=True, gomaxprocs=2), rapid("TestC12", 6000, shards=4, race=True, gomaxprocs=16), plain("TestC12Representation", shards=4, race=True, gomaxprocs=4), plain("TestNestedCompositions", race=True, gomaxprocs=4)],
+     rule="rapid cases (expression, document) from three sources (expressions whose literals are shared by the compiled AST and flow into sort_by/reverse/merge; the C06 templates on unsorted documents; document-aware all-function expressions) plus expressions over a Go struct document (reflection paths; mode 'struct': results compared with the sequential call) x 5 modes (one compiled expression + one shared document; + private documents that differ per goroutine (arrays doubled / truncated; expected result per variant from the reference model); one-shot Search from all goroutines; mixed with concurrent Compile of other expressions; with a concurrent deep reader of the document): 8 goroutines x 20 iterations released by a barrier, binary built with -race (GORACE=halt_on_error: a report fails the run and is attributed to the running case through a breadcrumb file). Oracle: no race report; every goroutine's result equals the sequential result (bag-aware) which equals the reference model; the shared document is unchanged. Non-trivial: at least two goroutines overlapped and the expression reaches a function or projection. Non-finite documents (TestC12NonFiniteDocs): a Go-built document holding NaN and infinities shared by 8 callers (compiled and one-shot) and a concurrent reader; only 'no race report, document bit-identical afterwards' is asserted.",
      technique="concurrent execution of generated cases under the Go race detector + per-goroutine result = sequential result = reference model",
      level_text="The race detector is happens-before based, so coverage is driven by which code paths run concurrently (controlled by the generator) rather than by timing luck; an atomicity violation without a data race is found only if it changes a result in an explored run. The harness does not own the scheduler: reduced strength, see DESIGN.md section 10.",
      min_nontrivial=200,
@@ -174,17 +174,17 @@ prop("C15",
      min_nontrivial=3000)
 
 prop("C16",
-     quick=[rapid("TestC16", 20000, shards=4), plain("TestSizeSweep", shards=4), plain("TestProducerConsumerGrid", shards=4), plain("TestNestedCompositions"), plain("TestC10ByExprKeys")],
-     thorough=[rapid("TestC16", 600000, shards=16), plain("TestSizeSweep", shards=4), plain("TestProducerConsumerGrid", shards=4), plain("TestNestedCompositions"), plain("TestC10ByExprKeys")],
-     rule="rapid: G-doc documents (numbers |x| <= 1e15) x (a) every function with closure-threatening arguments (empty arrays/objects/strings, 'inf', 'nan', 'Infinity', '1e999', '0x1p4', empty projections/slices) in 5 contexts, (b) document-aware all-function expressions. Precondition: the expression is a sentence of the strict grammar (expression references only as function arguments). Oracle (validity predicate): on success the result consists only of nil, bool, finite float64, string, non-nil []interface{} and non-nil map[string]interface{}, json.Marshal succeeds and json.Unmarshal of the text deep-equals the result. Non-trivial: Search succeeded with a non-null result; classes: result type, top-level node, top-level function.",
+     quick=[plain("TestDeepDocs", shards=4), plain("TestSharedSubvalues"), rapid("TestC16", 20000, shards=4), plain("TestSizeSweep", shards=4), plain("TestProducerConsumerGrid", shards=4), plain("TestNestedCompositions"), plain("TestC10ByExprKeys")],
+     thorough=[plain("TestDeepDocs", shards=4), plain("TestSharedSubvalues"), rapid("TestC16", 600000, shards=16), plain("TestSizeSweep", shards=4), plain("TestProducerConsumerGrid", shards=4), plain("TestNestedCompositions"), plain("TestC10ByExprKeys")],
+     rule="rapid: G-doc documents (numbers |x| <= 1e15) x (a) every function with closure-threatening arguments (empty arrays/objects/strings, 'inf', 'nan', 'Infinity', '1e999', '0x1p4', empty projections/slices) in 5 contexts, (b) document-aware all-function expressions. Precondition: the expression is a sentence of the strict grammar (expression references only as function arguments). Oracle (validity predicate): on success the result consists only of nil, bool, finite float64, string, non-nil []interface{} and non-nil map[string]interface{}, json.Marshal succeeds and json.Unmarshal of the text deep-equals the result. Non-trivial: Search succeeded with a non-null result; classes: result type, top-level node, top-level function. Deep documents (TestDeepDocs) and shared sub-values (TestSharedSubvalues) under the JSON-data predicate.",
      technique="validity predicate (type walk + JSON marshal/unmarshal round trip) over generated expressions",
      level_text="Closure is a predicate on every reachable result; no reference needed.",
      min_nontrivial=5000)
 
 prop("C17",
-     quick=[plain("TestC17Sites"), rapid("TestC17Random", 120000)],
-     thorough=[plain("TestC17Sites"), rapid("TestC17Random", 800000, shards=16), fuzz("FuzzC17", "120s", fuzz_kind="contract", mem_gb=16, wall_timeout=900)],
-     rule="~130 texts aimed at each lexer/parser failure site in 6 contexts; random bytes (incl. invalid UTF-8, NUL), token soup, hard Unicode strings, sentences, mutants, truncations at every byte offset, spliced runes/bytes. Contract predicate: exactly one of (expression, error); for a SyntaxError: Expression == input, 0 <= Offset <= len(input), HighlightLocation() == input + newline + Offset spaces + '^' without panicking, Error() non-empty; MustCompile panics iff Compile failed with a string containing strconv.Quote(input), else its expression behaves like Compile's on two documents and matches the reference model. Non-trivial: Compile failed; classes: site:<message template>, offset:0/interior/len, syntaxerror/other-error.",
+     quick=[plain("TestDepthSweep"), plain("TestC17Sites"), rapid("TestC17Random", 120000)],
+     thorough=[plain("TestDepthSweep"), plain("TestC17Sites"), rapid("TestC17Random", 800000, shards=16), fuzz("FuzzC17", "120s", fuzz_kind="contract", mem_gb=16, wall_timeout=900)],
+     rule="~130 texts aimed at each lexer/parser failure site in 6 contexts; random bytes (incl. invalid UTF-8, NUL), token soup, hard Unicode strings, sentences, mutants, truncations at every byte offset, spliced runes/bytes. Contract predicate: exactly one of (expression, error); for a SyntaxError: Expression == input, 0 <= Offset <= len(input), HighlightLocation() == input + newline + Offset spaces + '^' without panicking, Error() non-empty; MustCompile panics iff Compile failed with a string containing strconv.Quote(input), else its expression behaves like Compile's on two documents and matches the reference model. Non-trivial: Compile failed; classes: site:<message template>, offset:0/interior/len, syntaxerror/other-error. Depth sweep (TestDepthSweep): 18 nesting constructs x every depth 1..72 and around 96..10000, complete, cut off after the last opener, unclosed and over-closed, under the contract predicate.",
      technique="contract predicate over generated byte strings (rapid) + native fuzzing with the same predicate (thorough)",
      level_text="Every failure path is reached through generated inputs; the evidence lists the distinct message templates reached so that a missing site is visible.",
      min_nontrivial=5000)
